@@ -28,6 +28,29 @@ var (
 
 type c50Op struct{ kind, loc, key, val, sb, se int }
 
+// c50Panics collects panics of the code under test raised on worker / reporter goroutines.
+var (
+	c50PanicMu sync.Mutex
+	c50Panics  []string
+)
+
+func c50Guard() {
+	if x := recover(); x != nil {
+		c50PanicMu.Lock()
+		c50Panics = append(c50Panics, fmt.Sprint(x))
+		c50PanicMu.Unlock()
+	}
+}
+
+func c50FlushPanics(tr *vlib.Trace) {
+	c50PanicMu.Lock()
+	defer c50PanicMu.Unlock()
+	for _, p := range c50Panics {
+		tr.Emit(map[string]any{"ev": "panic", "what": p})
+	}
+	c50Panics = nil
+}
+
 // c50Report flattens the loadData of one stats() call (nil data: all zero).
 func c50Report(ds []*loadData, a, b int64) map[string]any {
 	td := uint64(0)
@@ -138,6 +161,7 @@ func TestVerifC50Rounds(t *testing.T) {
 		rwg.Add(1)
 		go func() { // the reporter: up to 6 snapshots while the workers run
 			defer rwg.Done()
+			defer c50Guard()
 			rng := rand.New(rand.NewSource(seed*1000003 + int64(r)))
 			for i := 0; i < 6; i++ {
 				for k := rng.Intn(4); k > 0; k-- {
@@ -160,6 +184,7 @@ func TestVerifC50Rounds(t *testing.T) {
 			wg.Add(1)
 			go func() {
 				defer wg.Done()
+				defer c50Guard()
 				for k := 0; k < nops; k++ {
 					w.step(p, &seq, true)
 					if w.rng.Intn(3) == 0 {
@@ -181,6 +206,7 @@ func TestVerifC50Rounds(t *testing.T) {
 				ops = append(ops, []int{o.kind, o.loc, o.key, o.val, o.sb, o.se})
 			}
 		}
+		c50FlushPanics(tr)
 		tr.Emit(map[string]any{"ev": "round", "r": r, "ops": ops, "reports": reports})
 	}
 	fmt.Printf("VERIF_SUMMARY {\"behaviours\":%d,\"events\":%d}\n", rounds, tr.N)
@@ -233,6 +259,7 @@ func TestVerifC50Bulk(t *testing.T) {
 		running := make(chan struct{})
 		go func() {
 			defer rwg.Done()
+			defer c50Guard()
 			close(running)
 			for !done.Load() {
 				add(ls.stats(nil))
@@ -245,6 +272,7 @@ func TestVerifC50Bulk(t *testing.T) {
 			wg.Add(1)
 			go func() {
 				defer wg.Done()
+				defer c50Guard()
 				local := make([]int64, 17)
 				for k := 0; k < perWorker; k++ {
 					o := w.step(p, nil, false)
@@ -275,6 +303,7 @@ func TestVerifC50Bulk(t *testing.T) {
 		final := ls.stats(nil)
 		add(final)
 		frep := c50Report(final, 0, 0)["locs"].([][]int64)
+		c50FlushPanics(tr)
 		tr.Emit(map[string]any{"ev": "bulk", "r": r, "events": events, "reported": reported, "nrep": nrep,
 			"inprog_final": frep[0][3] + frep[1][3], "open_final": openFinal})
 	}
